@@ -166,6 +166,18 @@ impl cw_multi_test::AddressGenerator for PlainNames {
     }
 }
 
+/// A stateful address generator: it keeps a counter in chain storage and hands out the next name of a sequence on
+/// every call (so it must be asked exactly once per instantiation, and a rolled-back instantiation gives its name back).
+pub struct SequenceNames;
+impl cw_multi_test::AddressGenerator for SequenceNames {
+    fn contract_address(&self, _api: &dyn cosmwasm_std::Api, storage: &mut dyn cosmwasm_std::Storage, _code_id: u64, _instance_id: u64) -> AnyResult<Addr> {
+        let key = crate::model::chain::custom_record_key(crate::model::chain::SEQUENCE_TAG);
+        let n: u64 = storage.get(&key).and_then(|v| String::from_utf8_lossy(&v).trim_start_matches("from:seq").parse().ok()).unwrap_or(0);
+        storage.set(&key, format!("from:seq{}", n + 1).as_bytes());
+        Ok(Addr::unchecked(crate::model::chain::sequence_contract_name(n)))
+    }
+}
+
 /// A checksum generator that computes what the default one computes (it is not exported).
 pub struct SameAsDefaultChecksums;
 impl cw_multi_test::ChecksumGenerator for SameAsDefaultChecksums {
@@ -182,6 +194,10 @@ pub fn new_app_setup(kind: ApiKind, prestored: bool) -> PApp {
 
 pub fn new_app_setup2(kind: ApiKind, prestored: bool, one_address_per_code: bool) -> PApp {
     let b: cw_multi_test::BasicAppBuilder<PMsg, PQuery> = AppBuilder::new_custom();
+    if kind == ApiKind::Plain && one_address_per_code {
+        let keeper: WasmKeeper<PMsg, PQuery> = WasmKeeper::new().with_address_generator(SequenceNames);
+        return b.with_custom(CustomMod).with_api(FlexApi::of(kind)).with_wasm(keeper).build(|_, _, _| {});
+    }
     if kind == ApiKind::Plain {
         let keeper: WasmKeeper<PMsg, PQuery> = WasmKeeper::new().with_address_generator(PlainNames);
         return b.with_custom(CustomMod).with_api(FlexApi::of(kind)).with_wasm(keeper).build(|_, _, _| {});
@@ -307,7 +323,7 @@ impl World {
     }
 
     pub fn with_setup2(kind: ApiKind, prestored: bool, one_address_per_code: bool) -> World {
-        let one_address_per_code = one_address_per_code && kind != ApiKind::Plain;
+        // (on plain-address chains the flag selects the stateful sequence generator instead)
         let prestored = prestored && !one_address_per_code && kind != ApiKind::Plain;
         let app = new_app_setup2(kind, prestored, one_address_per_code);
         let mut model = ChainM::new(block_tuple(&app.block_info()));
